@@ -1,7 +1,7 @@
 (* C03: the stored element count of static_vector / inplace_vector (and the adapters over a static_vector) as a value of
    size_type = etl::smallest_size_t<Capacity> (ModelSize.v): no count in 0..Capacity is lost by the conversion, so for
    every capacity a size_t can hold and every history size() is the number of element objects in the storage. *)
-From Tetl Require Import Lib.Base C03.ModelSize C03.ProofsSize.
+From Tetl Require Import Lib.Base C03.ModelSize C03.ProofsSize C03.ProofsSizeIdeal.
 Local Open Scope Z_scope.
 
 (* smallest_size_t<Capacity> holds every count 0..Capacity (static_cast<size_type> is the reduction modulo 2^bits) *)
@@ -45,6 +45,17 @@ Proof.
   exact (cfinal_good cap s G).
 Qed.
 Print Assumptions C03_size_nothing_left_alive.
+
+(* model = specification: the model of the code (every update of the count converted to smallest_size_t<Capacity>) is, state by
+   state, counter by counter and outcome by outcome, the model over a count that is never converted (the spec leg of `bmon`) *)
+Theorem C03_size_code_is_unconverted_count : forall cap fl kd triv ops,
+  0 <= cap < 2 ^ 64 -> crun_code cap fl kd triv ops = crun_ideal cap fl kd triv ops.
+Proof.
+  intros cap fl kd triv ops Hc. unfold crun_code, crun_ideal.
+  assert (Hcast : forall n, 0 <= n <= cap -> size_cast cap n = n) by (intros n Hn; apply size_cast_id; assumption).
+  apply (crun_eq (size_cast cap) cap fl kd triv (proj1 Hc) Hcast ops cst0). exact (goods0 (size_cast cap) cap (proj1 Hc) Hcast).
+Qed.
+Print Assumptions C03_size_code_is_unconverted_count.
 
 (* the width is what the statements above rest on: the same members over an 8 bit count at capacity 300 (a 16 bit count at
    capacity 70000) report size() == 0 with 256 (65536) elements alive, and the destructor leaves all of them alive *)
